@@ -403,7 +403,7 @@ var c03Atoms = []string{"a", `\"`, `\\`, `\/`, `\b`, `\f`, `\n`, `\r`, `\t`, c03
 var c03MoreAtoms = []string{"b", "n", "u", "t", "Z", "0", "9", " ", "  ", ",", "]", "}", "[", "*/", "/*", "-", ".", "'", "|", "$", "%", "<", "&", "=", "?", "~", "\x7f",
 	"\xe2\x82\xac", c03U("20ac"), c03U("20AC"), c03U("00E9"), c03U("0022"), c03U("005c"), c03U("005C"), c03U("002f"), c03U("000a"), c03U("000D"), c03U("001f"), c03U("007f"), c03U("ffff"),
 	c03U("D834") + c03U("DD1E"), "\xf0\x9d\x84\x9e", "\xe2\x80\xa8", "\xc2\xa0", "\xef\xbf\xbd",
-	"true", "null", "1e5", "@", `\\n`, `\\\"`, "# c", "// c", "{}", "/*", "\\\\" + "u0041", "\\\\" + "u003e", "\\\\" + "u0026", "\\\\" + "u2028", ">", "u0026", "\\\\" + "n", "\\\\" + "\\\""}
+	"true", "null", "1e5", "@", `\\n`, `\\\"`, "# c", "// c", "{}", "/*", "\\\\" + "u0041", "\\\\" + "u003e", "\\\\" + "u0026", "\\\\" + "u2028", ">", "u0026", "\\\\" + "n", "\\\\" + "\\\"", c03U("d800"), c03U("dc00"), c03U("0041"), c03U("dbff") + c03U("dfff"), c03U("D800") + c03U("DC00")}
 
 func c03GenAtoms(rng *rand.Rand) []string {
 	n := rng.IntN(5)
